@@ -1,2 +1,543 @@
-(* Proofs for property C05. *)
-From SC.Model Require Import Base.
+(* Proofs for property C05 - percentage phrases compute the textbook formulas for numbers and
+   money.
+
+   Layers:
+   1. operation-sequence theorems for an arbitrary number algebra [Num F] (so also for binary64):
+      which fadd/fsub/fmul/do_division sequence each rule function / interpreter step performs,
+      for ANY field map that binds the right names;
+   2. the same over the exact rationals (NumQ): the sequence is the textbook formula of
+      Spec/Percent.v (by [field]), a zero divisor gives 0, money keeps its currency;
+   3. the phrase level for 'X + p%' / 'X - p%': parser + interpreter on the three tokens;
+   4. finite-table theorems over the regenerated rule table (Run64.default_config, loaded by the
+      model from Gen/ConfigData): the rules of the five phrases exist in every language, their
+      patterns bind exactly the field names the theorems above assume, and the rule loop run on
+      the token shapes of the phrases fires the intended rule (for all binary64 values);
+   5. the two spellings 'p%' and '%p'. *)
+From Coq Require Import QArith Qcanon Floats.
+From SC.Model Require Import Base Num NumQ NumF64 Types Config Case Match Post Parser Items Interp RuleFns Rules
+     Api Run64.
+From SC.Spec Require Import Percent.
+
+(* ------------------------------------------------------------------------------------------ *)
+(* 1. operation sequences, any number algebra                                                   *)
+(* ------------------------------------------------------------------------------------------ *)
+Section WithNum.
+Context {F : Type} {NF : Num F}.
+
+(* the amount a token denotes: a number, money, or a variable whose value is one of these
+   (this is what get_number_or_price / get_currency read) *)
+Definition amount_of (vs : vars F) (t : token F) : option (amount F) :=
+  match t with
+  | TNumber x _ => Some (Plain x)
+  | TMoney x c => Some (Cash x c)
+  | TVariable v =>
+    match var_item vs v with
+    | Some (INumber x _) => Some (Plain x)
+    | Some (IMoney x c) => Some (Cash x c)
+    | _ => None
+    end
+  | _ => None
+  end.
+
+(* the field map binds the name [k] to a token denoting the amount *)
+Definition field_amount (vs : vars F) (k : string) (fs : fields F) : option (amount F) :=
+  match field_token vs (s k) fs with Some t => amount_of vs t | None => None end.
+
+(* the field map binds the name [k] to a percentage (a percent token or a variable holding one) *)
+Definition field_percent (vs : vars F) (k : string) (fs : fields F) : option F :=
+  get_percent vs (s k) fs.
+
+(* an amount as a result token: Number (decimal) or Money in the amount's currency *)
+Definition amount_token (a : amount F) : token F :=
+  match a with Plain x => TNumber x Decimal | Cash x c => TMoney x c end.
+
+Lemma field_amount_reads vs k fs a :
+  field_amount vs k fs = Some a ->
+  has k fs = true /\
+  get_number_or_price vs (s k) fs = Some (amt_val a) /\
+  (forall cfg v, money_or_number cfg vs (s k) fs v = amount_token (amt_with a v)).
+Proof.
+  unfold field_amount, has, assoc_mem, get_number_or_price, get_number, get_money, money_or_number,
+    get_currency, field_token.
+  destruct (assoc (s k) fs) as [ti|]; [|discriminate].
+  destruct (ti_ty ti) as [t|]; [|discriminate].
+  destruct t; cbn [amount_of]; try discriminate.
+  - intros E; injection E as <-. repeat split.
+  - intros E; injection E as <-. repeat split.
+  - destruct (var_item vs name) as [i|]; [|discriminate].
+    destruct i; try discriminate; intros E; injection E as <-; repeat split.
+Qed.
+
+Lemma field_percent_has vs k fs p : field_percent vs k fs = Some p -> has k fs = true.
+Proof.
+  unfold field_percent, get_percent, has, assoc_mem, field_token.
+  destruct (assoc (s k) fs); [reflexivity | discriminate].
+Qed.
+
+(* direct bindings, as the rule loop produces them for literal operands *)
+Lemma field_amount_number vs k fs ti x nt :
+  assoc (s k) fs = Some ti -> ti_ty ti = Some (TNumber x nt) -> field_amount vs k fs = Some (Plain x).
+Proof. intros H1 H2. unfold field_amount, field_token. rewrite H1, H2. reflexivity. Qed.
+
+Lemma field_amount_money vs k fs ti x c :
+  assoc (s k) fs = Some ti -> ti_ty ti = Some (TMoney x c) -> field_amount vs k fs = Some (Cash x c).
+Proof. intros H1 H2. unfold field_amount, field_token. rewrite H1, H2. reflexivity. Qed.
+
+Lemma field_percent_token vs k fs ti p :
+  assoc (s k) fs = Some ti -> ti_ty ti = Some (TPercent p) -> field_percent vs k fs = Some p.
+Proof. intros H1 H2. unfold field_percent, get_percent, field_token. rewrite H1, H2. reflexivity. Qed.
+
+(* the operation sequences of the statement's phrases *)
+Definition ops_on (X p : F) : F := fadd X (do_division (fmul X p) f100).
+Definition ops_off (X p : F) : F := fsub X (do_division (fmul X p) f100).
+Definition ops_of (X p : F) : F := do_division (fmul X p) f100.
+Definition ops_what_percent (A B : F) : F := do_division (fmul A f100) B.
+Definition ops_of_what (A p : F) : F := do_division (fmul A f100) p.
+Definition ops_plus (X p : F) : F := fadd X (fmul (do_division X f100) p).
+Definition ops_minus (X p : F) : F := fsub X (fmul (do_division X f100) p).
+
+Theorem number_on_ops cfg vs fs a p :
+  field_amount vs "number" fs = Some a -> field_percent vs "p" fs = Some p ->
+  number_on cfg vs fs = Ok (Some (amount_token (amt_with a (ops_on (amt_val a) p)))).
+Proof.
+  intros H1 H2. destruct (field_amount_reads _ _ _ _ H1) as (Hh & Hn & Hm).
+  pose proof (field_percent_has _ _ _ _ H2) as Hp. unfold field_percent in H2.
+  unfold number_on. rewrite Hh, Hp, Hn, H2, Hm. reflexivity.
+Qed.
+
+Theorem number_of_ops cfg vs fs a p :
+  field_amount vs "number" fs = Some a -> field_percent vs "p" fs = Some p ->
+  number_of cfg vs fs = Ok (Some (amount_token (amt_with a (ops_of (amt_val a) p)))).
+Proof.
+  intros H1 H2. destruct (field_amount_reads _ _ _ _ H1) as (Hh & Hn & Hm).
+  pose proof (field_percent_has _ _ _ _ H2) as Hp. unfold field_percent in H2.
+  unfold number_of. rewrite Hh, Hp, Hn, H2, Hm. reflexivity.
+Qed.
+
+Theorem number_off_ops cfg vs fs a p :
+  field_amount vs "number" fs = Some a -> field_percent vs "p" fs = Some p ->
+  number_off cfg vs fs = Ok (Some (amount_token (amt_with a (ops_off (amt_val a) p)))).
+Proof.
+  intros H1 H2. destruct (field_amount_reads _ _ _ _ H1) as (Hh & Hn & Hm).
+  pose proof (field_percent_has _ _ _ _ H2) as Hp. unfold field_percent in H2.
+  unfold number_off. rewrite Hh, Hp, Hn, H2, Hm. reflexivity.
+Qed.
+
+(* 'A is what % of B': a percentage, whatever the kinds (plain / money, any currencies) of A, B *)
+Theorem find_numbers_percent_ops vs fs a b :
+  field_amount vs "part" fs = Some a -> field_amount vs "total" fs = Some b ->
+  find_numbers_percent vs fs = Ok (Some (TPercent (ops_what_percent (amt_val a) (amt_val b)))).
+Proof.
+  intros H1 H2.
+  destruct (field_amount_reads _ _ _ _ H1) as (Hh1 & Hn1 & _).
+  destruct (field_amount_reads _ _ _ _ H2) as (Hh2 & Hn2 & _).
+  unfold find_numbers_percent. rewrite Hh1, Hh2, Hn1, Hn2. reflexivity.
+Qed.
+
+Theorem find_total_from_percent_ops cfg vs fs a p :
+  field_amount vs "number_part" fs = Some a -> field_percent vs "percent_part" fs = Some p ->
+  find_total_from_percent cfg vs fs = Ok (Some (amount_token (amt_with a (ops_of_what (amt_val a) p)))).
+Proof.
+  intros H1 H2. destruct (field_amount_reads _ _ _ _ H1) as (Hh & Hn & Hm).
+  pose proof (field_percent_has _ _ _ _ H2) as Hp. unfold field_percent in H2.
+  unfold find_total_from_percent. rewrite Hh, Hp, Hn, H2, Hm. reflexivity.
+Qed.
+
+End WithNum.
+
+(* ------------------------------------------------------------------------------------------ *)
+(* 2. exact rationals: the sequences are the textbook formulas                                  *)
+(* ------------------------------------------------------------------------------------------ *)
+Section OverQ.
+Local Open Scope Qc_scope.
+
+Lemma q100_nz : q100 <> 0.
+Proof. intro H. apply (f_equal this) in H. vm_compute in H. discriminate. Qed.
+
+Lemma f100_q : @f100 Qc NumQ = q100.
+Proof. reflexivity. Qed.
+
+(* in NumQ every value is finite, so the guarded division is the field division, and the field
+   division by zero is 0: exactly the guarded division of the statement *)
+Lemma do_division_q (a b : Qc) : @do_division Qc NumQ a b = gdiv a b.
+Proof.
+  change (@do_division Qc NumQ a b) with (a / b). unfold gdiv.
+  destruct (Qc_eq_bool b 0) eqn:E; [|reflexivity].
+  apply Qc_eq_bool_correct in E. subst b. unfold Qcdiv.
+  change (/ 0) with 0. ring.
+Qed.
+
+Lemma gdiv_zero a : gdiv a 0 = 0.
+Proof. reflexivity. Qed.
+
+Lemma gdiv_nz a b : b <> 0 -> gdiv a b = a / b.
+Proof.
+  intros H. unfold gdiv. destruct (Qc_eq_bool b 0) eqn:E; [|reflexivity].
+  apply Qc_eq_bool_correct in E. contradiction.
+Qed.
+
+Lemma gdiv_100 a : gdiv a q100 = a / q100.
+Proof. apply gdiv_nz, q100_nz. Qed.
+
+Lemma ops_on_q X p : @ops_on Qc NumQ X p = pct_on X p.
+Proof.
+  unfold ops_on, pct_on. rewrite do_division_q, f100_q, gdiv_100.
+  change (@fadd Qc NumQ) with Qcplus. change (@fmul Qc NumQ) with Qcmult.
+  field. exact q100_nz.
+Qed.
+
+Lemma ops_off_q X p : @ops_off Qc NumQ X p = pct_off X p.
+Proof.
+  unfold ops_off, pct_off. rewrite do_division_q, f100_q, gdiv_100.
+  change (@fsub Qc NumQ) with Qcminus. change (@fmul Qc NumQ) with Qcmult.
+  field. exact q100_nz.
+Qed.
+
+Lemma ops_of_q X p : @ops_of Qc NumQ X p = pct_of X p.
+Proof.
+  unfold ops_of, pct_of. rewrite do_division_q, f100_q, gdiv_100. reflexivity.
+Qed.
+
+Lemma ops_what_percent_q A B : @ops_what_percent Qc NumQ A B = what_percent A B.
+Proof.
+  unfold ops_what_percent, what_percent. rewrite do_division_q, f100_q.
+  change (@fmul Qc NumQ) with Qcmult. f_equal. ring.
+Qed.
+
+Lemma ops_of_what_q A p : @ops_of_what Qc NumQ A p = of_what A p.
+Proof.
+  unfold ops_of_what, of_what. rewrite do_division_q, f100_q.
+  change (@fmul Qc NumQ) with Qcmult. f_equal. ring.
+Qed.
+
+Lemma ops_plus_q X p : @ops_plus Qc NumQ X p = pct_plus X p.
+Proof.
+  unfold ops_plus, pct_plus. rewrite do_division_q, f100_q, gdiv_100.
+  change (@fadd Qc NumQ) with Qcplus. change (@fmul Qc NumQ) with Qcmult.
+  field. exact q100_nz.
+Qed.
+
+Lemma ops_minus_q X p : @ops_minus Qc NumQ X p = pct_minus X p.
+Proof.
+  unfold ops_minus, pct_minus. rewrite do_division_q, f100_q, gdiv_100.
+  change (@fsub Qc NumQ) with Qcminus. change (@fmul Qc NumQ) with Qcmult.
+  field. exact q100_nz.
+Qed.
+
+(* the rule functions over Q: for ALL X, A, B, p (via the amount [a] and [p]) *)
+Theorem number_on_q (cfg : config Qc) vs fs a p :
+  field_amount vs "number" fs = Some a -> field_percent vs "p" fs = Some p ->
+  number_on cfg vs fs = Ok (Some (amount_token (amt_with a (pct_on (amt_val a) p)))).
+Proof. intros H1 H2. rewrite (number_on_ops cfg vs fs a p H1 H2), ops_on_q. reflexivity. Qed.
+
+Theorem number_of_q (cfg : config Qc) vs fs a p :
+  field_amount vs "number" fs = Some a -> field_percent vs "p" fs = Some p ->
+  number_of cfg vs fs = Ok (Some (amount_token (amt_with a (pct_of (amt_val a) p)))).
+Proof. intros H1 H2. rewrite (number_of_ops cfg vs fs a p H1 H2), ops_of_q. reflexivity. Qed.
+
+Theorem number_off_q (cfg : config Qc) vs fs a p :
+  field_amount vs "number" fs = Some a -> field_percent vs "p" fs = Some p ->
+  number_off cfg vs fs = Ok (Some (amount_token (amt_with a (pct_off (amt_val a) p)))).
+Proof. intros H1 H2. rewrite (number_off_ops cfg vs fs a p H1 H2), ops_off_q. reflexivity. Qed.
+
+Theorem find_numbers_percent_q (vs : vars Qc) fs a b :
+  field_amount vs "part" fs = Some a -> field_amount vs "total" fs = Some b ->
+  find_numbers_percent vs fs = Ok (Some (TPercent (what_percent (amt_val a) (amt_val b)))).
+Proof. intros H1 H2. rewrite (find_numbers_percent_ops vs fs a b H1 H2), ops_what_percent_q. reflexivity. Qed.
+
+Theorem find_total_from_percent_q (cfg : config Qc) vs fs a p :
+  field_amount vs "number_part" fs = Some a -> field_percent vs "percent_part" fs = Some p ->
+  find_total_from_percent cfg vs fs = Ok (Some (amount_token (amt_with a (of_what (amt_val a) p)))).
+Proof.
+  intros H1 H2. rewrite (find_total_from_percent_ops cfg vs fs a p H1 H2), ops_of_what_q. reflexivity.
+Qed.
+
+(* the guarded quotients, spelled out *)
+Theorem what_percent_cases A B :
+  (B <> 0 -> what_percent A B = q100 * A / B) /\ (B = 0 -> what_percent A B = 0).
+Proof.
+  split; intros H; unfold what_percent; [apply gdiv_nz; exact H | subst B; apply gdiv_zero].
+Qed.
+
+Theorem of_what_cases A p :
+  (p <> 0 -> of_what A p = q100 * A / p) /\ (p = 0 -> of_what A p = 0).
+Proof.
+  split; intros H; unfold of_what; [apply gdiv_nz; exact H | subst p; apply gdiv_zero].
+Qed.
+
+End OverQ.
+
+(* ------------------------------------------------------------------------------------------ *)
+(* 3. 'X + p%' and 'X - p%': parser and interpreter                                            *)
+(* ------------------------------------------------------------------------------------------ *)
+Section Phrase.
+Context {F : Type} {NF : Num F}.
+Variable bexec : config F -> str -> res (option F).
+
+(* a percent operand on the right is turned into 'that share of the left operand' *)
+Theorem calc_percent_ops (cfg : config F) X nt c p :
+  calculate bexec cfg (INumber X nt) (IPercent p) OAdd = Ok (Some (INumber (ops_plus X p) nt)) /\
+  calculate bexec cfg (INumber X nt) (IPercent p) OSub = Ok (Some (INumber (ops_minus X p) nt)) /\
+  calculate bexec cfg (IMoney X c) (IPercent p) OAdd = Ok (Some (IMoney (ops_plus X p) c)) /\
+  calculate bexec cfg (IMoney X c) (IPercent p) OSub = Ok (Some (IMoney (ops_minus X p) c)).
+Proof. repeat split. Qed.
+
+(* the other operand order is not a phrase of the statement: the calculation is declined *)
+Theorem calc_percent_left_declined (cfg : config F) X nt c p op :
+  calculate bexec cfg (IPercent p) (INumber X nt) op = Ok None /\
+  calculate bexec cfg (IPercent p) (IMoney X c) op = Ok None.
+Proof. split; reflexivity. Qed.
+
+(* what a token line evaluates to: SyntaxParser::parse, then Interpreter::execute *)
+Definition phrase_value (cfg : config F) (vs : vars F) (toks : list (token F)) : option (ast F) :=
+  match parse toks vs with
+  | (PAst a, vs') =>
+    match execute_ast bexec cfg vs' a with
+    | Ok (IOk v, _) => Some v
+    | _ => None
+    end
+  | _ => None
+  end.
+
+Theorem plus_minus_phrase_ops (cfg : config F) vs X nt c p :
+  phrase_value cfg vs [TNumber X nt; TOperator OP_PLUS; TPercent p]
+    = Some (AItem (INumber (ops_plus X p) nt)) /\
+  phrase_value cfg vs [TNumber X nt; TOperator OP_MINUS; TPercent p]
+    = Some (AItem (INumber (ops_minus X p) nt)) /\
+  phrase_value cfg vs [TMoney X c; TOperator OP_PLUS; TPercent p]
+    = Some (AItem (IMoney (ops_plus X p) c)) /\
+  phrase_value cfg vs [TMoney X c; TOperator OP_MINUS; TPercent p]
+    = Some (AItem (IMoney (ops_minus X p) c)).
+Proof. repeat split. Qed.
+
+End Phrase.
+
+Section PhraseQ.
+Variable bexec : config Qc -> str -> res (option Qc).
+
+Theorem calc_percent_q (cfg : config Qc) X nt c p :
+  calculate bexec cfg (INumber X nt) (IPercent p) OAdd = Ok (Some (INumber (pct_plus X p) nt)) /\
+  calculate bexec cfg (INumber X nt) (IPercent p) OSub = Ok (Some (INumber (pct_minus X p) nt)) /\
+  calculate bexec cfg (IMoney X c) (IPercent p) OAdd = Ok (Some (IMoney (pct_plus X p) c)) /\
+  calculate bexec cfg (IMoney X c) (IPercent p) OSub = Ok (Some (IMoney (pct_minus X p) c)).
+Proof.
+  rewrite <- ops_plus_q, <- ops_minus_q. apply calc_percent_ops.
+Qed.
+
+Theorem plus_minus_phrase_q (cfg : config Qc) vs X nt c p :
+  phrase_value bexec cfg vs [TNumber X nt; TOperator OP_PLUS; TPercent p]
+    = Some (AItem (INumber (pct_plus X p) nt)) /\
+  phrase_value bexec cfg vs [TNumber X nt; TOperator OP_MINUS; TPercent p]
+    = Some (AItem (INumber (pct_minus X p) nt)) /\
+  phrase_value bexec cfg vs [TMoney X c; TOperator OP_PLUS; TPercent p]
+    = Some (AItem (IMoney (pct_plus X p) c)) /\
+  phrase_value bexec cfg vs [TMoney X c; TOperator OP_MINUS; TPercent p]
+    = Some (AItem (IMoney (pct_minus X p) c)).
+Proof.
+  rewrite <- ops_plus_q, <- ops_minus_q. apply plus_minus_phrase_ops.
+Qed.
+
+End PhraseQ.
+
+(* ------------------------------------------------------------------------------------------ *)
+(* 4. the regenerated rule table                                                                *)
+(* ------------------------------------------------------------------------------------------ *)
+(* [default_config] is what the model's loader (Api.load_config) makes of Gen/ConfigData
+   (config.json as it is now): the rules of each language in BTreeMap (alphabetical) order, the
+   pattern texts of d_rule_texts tokenised into field / word / operator tokens. *)
+
+(* the readable skeleton of a pattern *)
+Inductive pelem :=
+| PAmount (name : string)        (* {NUMBER_OR_MONEY:name} *)
+| PPercent (name : string)       (* {PERCENT:name} *)
+| PWord (w : string)             (* a literal word *)
+| POp (c : N)                    (* an operator character *)
+| POther.
+
+Definition pelem_eqb (a b : pelem) : bool :=
+  match a, b with
+  | PAmount x, PAmount y | PPercent x, PPercent y | PWord x, PWord y => str_eqb (s x) (s y)
+  | POp x, POp y => N.eqb x y
+  | _, _ => false
+  end.
+
+Fixpoint plist_eqb (a b : list pelem) : bool :=
+  match a, b with
+  | [], [] => true
+  | x :: a', y :: b' => pelem_eqb x y && plist_eqb a' b'
+  | _, _ => false
+  end.
+
+(* does a pattern token have the given skeleton element (it must be Active as well) *)
+Definition pelem_is (ti : token_info float) (e : pelem) : bool :=
+  ti_active ti &&
+  match ti_ty ti, e with
+  | Some (TField (FTypeGroup tys n)), PAmount x =>
+    list_str_eqb tys [s "NUMBER"; s "MONEY"] && str_eqb n (s x)
+  | Some (TField (FPercent n)), PPercent x => str_eqb n (s x)
+  | Some (TText w), PWord x => str_eqb w (s x)
+  | Some (TOperator c), POp x => N.eqb c x
+  | _, _ => false
+  end.
+
+Fixpoint pattern_is (pat : list (token_info float)) (sk : list pelem) : bool :=
+  match pat, sk with
+  | [], [] => true
+  | ti :: pat', e :: sk' => pelem_is ti e && pattern_is pat' sk'
+  | _, _ => false
+  end.
+
+(* the phrases of the statement: rule function name, pattern skeletons *)
+Definition phrase_table : list (string * list (list pelem)) :=
+  [("number_on", [[PPercent "p"; PWord "on"; PAmount "number"]; [PAmount "number"; PWord "on"; PPercent "p"]]);
+   ("number_of", [[PPercent "p"; PWord "of"; PAmount "number"]; [PAmount "number"; PWord "of"; PPercent "p"]]);
+   ("number_off", [[PPercent "p"; PWord "off"; PAmount "number"]; [PAmount "number"; PWord "off"; PPercent "p"]]);
+   ("find_numbers_percent",
+    [[PAmount "part"; PWord "is"; PWord "what"; POp 37; PWord "of"; PAmount "total"]]);
+   ("find_total_from_percent",
+    [[PAmount "number_part"; PWord "is"; PPercent "percent_part"; PWord "of"; PWord "what"]])]%string.
+
+Definition rules_named (rules : list (rule float)) (name : string) : list (list (list (token_info float))) :=
+  flat_map (fun r => match r with
+                     | RInternal f pats => if str_eqb f (s name) then [pats] else []
+                     | RApi _ _ => []
+                     end) rules.
+
+(* exactly one rule of that name; each of its patterns has one of the skeletons and each
+   skeleton is the shape of one of its patterns *)
+Definition rule_has_shape (rules : list (rule float)) (e : string * list (list pelem)) : bool :=
+  match rules_named rules (fst e) with
+  | [pats] =>
+    forallb (fun pat => existsb (pattern_is pat) (snd e)) pats &&
+    forallb (fun sk => existsb (fun pat => pattern_is pat sk) pats) (snd e)
+  | _ => false
+  end.
+
+Definition phrase_rules_ok : bool :=
+  forallb (fun lr => forallb (rule_has_shape (snd lr)) phrase_table) (cf_rules default_config).
+
+Theorem phrase_rules_table :
+  map fst (cf_rules default_config) = [s "en"; s "tr"] /\
+  forall lang rules e, In (lang, rules) (cf_rules default_config) -> In e phrase_table ->
+    rule_has_shape rules e = true.
+Proof.
+  split; [vm_compute; reflexivity|].
+  assert (H : phrase_rules_ok = true) by (vm_compute; reflexivity).
+  intros lang rules e Hl He. unfold phrase_rules_ok in H.
+  rewrite forallb_forall in H. specialize (H _ Hl). cbn [snd] in H.
+  rewrite forallb_forall in H. exact (H _ He).
+Qed.
+
+(* the dispatch by name reaches the functions of the theorems above *)
+Theorem call_rule_dispatch {F} {NF : Num F} bexec ny (cfg : config F) lang vs fs :
+  call_rule bexec ny cfg lang vs (s "number_on") fs = number_on cfg vs fs /\
+  call_rule bexec ny cfg lang vs (s "number_of") fs = number_of cfg vs fs /\
+  call_rule bexec ny cfg lang vs (s "number_off") fs = number_off cfg vs fs /\
+  call_rule bexec ny cfg lang vs (s "find_numbers_percent") fs = find_numbers_percent vs fs /\
+  call_rule bexec ny cfg lang vs (s "find_total_from_percent") fs = find_total_from_percent cfg vs fs.
+Proof. repeat split. Qed.
+
+(* --- the rule loop on the token shapes of the phrases, for all binary64 values --- *)
+(* an Active typed token with arbitrary span and text *)
+Definition tinfo (b e : N) (t : token float) (txt : str) : token_info float :=
+  {| ti_start := b; ti_end := e; ti_ty := Some t; ti_text := txt; ti_active := true |}.
+
+(* the tail of Tokinizer::tokinize from the rule loop on (Api.tokinize st5 -> tokens), then
+   SyntaxParser::parse and Interpreter::execute (Api.execute_text), for a line whose lexing
+   produced the token infos [infos]; no session variables *)
+Definition value_of_infos (bexec : config float -> str -> res (option float)) (ny : Z)
+           (line lang : str) (infos : list (token_info float)) : option (ast float) :=
+  let st := {| ts_infos := infos; ts_ui := [] |} in
+  match rule_tokinizer bexec ny (loop_fuel st) line default_config lang [] st with
+  | Ok (Some st') =>
+    let tokens := token_generator (ts_infos st') in
+    let tokens := token_cleaner (ts_infos st') tokens in
+    let tokens := missing_token_adder tokens in
+    phrase_value bexec default_config [] tokens
+  | _ => None
+  end.
+
+Definition num (x : float) : ast float := AItem (INumber x Decimal).
+Definition word (b e : N) (w : string) : token_info float := tinfo b e (TText (s w)) (s w).
+
+Section Selected.
+Variable bexec : config float -> str -> res (option float).
+Variable ny : Z.
+Variable line : str.
+Variables b1 e1 b2 e2 b3 e3 b4 e4 b5 e5 b6 e6 : N.
+Variables x1 x2 x3 : str.
+
+Lemma lang_cases lang : In lang (map fst (cf_rules default_config)) -> lang = s "en" \/ lang = s "tr".
+Proof.
+  intros H. vm_compute in H. destruct H as [H|[H|[]]]; [left|right]; symmetry; exact H.
+Qed.
+
+Ltac by_lang H := destruct (lang_cases _ H); subst; vm_compute; repeat split.
+
+(* 'p% on X' / 'X on p%', 'of', 'off': plain number *)
+Theorem selected_number lang (X p : float) nt :
+  In lang (map fst (cf_rules default_config)) ->
+  value_of_infos bexec ny line lang [tinfo b1 e1 (TPercent p) x1; word b2 e2 "on"; tinfo b3 e3 (TNumber X nt) x3]
+    = Some (num (ops_on X p)) /\
+  value_of_infos bexec ny line lang [tinfo b1 e1 (TNumber X nt) x1; word b2 e2 "on"; tinfo b3 e3 (TPercent p) x3]
+    = Some (num (ops_on X p)) /\
+  value_of_infos bexec ny line lang [tinfo b1 e1 (TPercent p) x1; word b2 e2 "of"; tinfo b3 e3 (TNumber X nt) x3]
+    = Some (num (ops_of X p)) /\
+  value_of_infos bexec ny line lang [tinfo b1 e1 (TNumber X nt) x1; word b2 e2 "of"; tinfo b3 e3 (TPercent p) x3]
+    = Some (num (ops_of X p)) /\
+  value_of_infos bexec ny line lang [tinfo b1 e1 (TPercent p) x1; word b2 e2 "off"; tinfo b3 e3 (TNumber X nt) x3]
+    = Some (num (ops_off X p)) /\
+  value_of_infos bexec ny line lang [tinfo b1 e1 (TNumber X nt) x1; word b2 e2 "off"; tinfo b3 e3 (TPercent p) x3]
+    = Some (num (ops_off X p)).
+Proof. intros H. by_lang H. Qed.
+
+(* the same with money in any currency code [c]: money out, same currency *)
+Theorem selected_money lang (X p : float) (c : str) :
+  In lang (map fst (cf_rules default_config)) ->
+  value_of_infos bexec ny line lang [tinfo b1 e1 (TPercent p) x1; word b2 e2 "on"; tinfo b3 e3 (TMoney X c) x3]
+    = Some (AItem (IMoney (ops_on X p) c)) /\
+  value_of_infos bexec ny line lang [tinfo b1 e1 (TMoney X c) x1; word b2 e2 "on"; tinfo b3 e3 (TPercent p) x3]
+    = Some (AItem (IMoney (ops_on X p) c)) /\
+  value_of_infos bexec ny line lang [tinfo b1 e1 (TPercent p) x1; word b2 e2 "of"; tinfo b3 e3 (TMoney X c) x3]
+    = Some (AItem (IMoney (ops_of X p) c)) /\
+  value_of_infos bexec ny line lang [tinfo b1 e1 (TMoney X c) x1; word b2 e2 "of"; tinfo b3 e3 (TPercent p) x3]
+    = Some (AItem (IMoney (ops_of X p) c)) /\
+  value_of_infos bexec ny line lang [tinfo b1 e1 (TPercent p) x1; word b2 e2 "off"; tinfo b3 e3 (TMoney X c) x3]
+    = Some (AItem (IMoney (ops_off X p) c)) /\
+  value_of_infos bexec ny line lang [tinfo b1 e1 (TMoney X c) x1; word b2 e2 "off"; tinfo b3 e3 (TPercent p) x3]
+    = Some (AItem (IMoney (ops_off X p) c)).
+Proof. intros H. by_lang H. Qed.
+
+(* 'A is what % of B' (a percentage, also between amounts of money) and 'A is p% of what' *)
+Theorem selected_what lang (A B p : float) nt nt' (c c' : str) :
+  In lang (map fst (cf_rules default_config)) ->
+  value_of_infos bexec ny line lang
+    [tinfo b1 e1 (TNumber A nt) x1; word b2 e2 "is"; word b3 e3 "what"; tinfo b4 e4 (TOperator 37) x2;
+     word b5 e5 "of"; tinfo b6 e6 (TNumber B nt') x3]
+    = Some (AItem (IPercent (ops_what_percent A B))) /\
+  value_of_infos bexec ny line lang
+    [tinfo b1 e1 (TMoney A c) x1; word b2 e2 "is"; word b3 e3 "what"; tinfo b4 e4 (TOperator 37) x2;
+     word b5 e5 "of"; tinfo b6 e6 (TMoney B c') x3]
+    = Some (AItem (IPercent (ops_what_percent A B))) /\
+  value_of_infos bexec ny line lang
+    [tinfo b1 e1 (TNumber A nt) x1; word b2 e2 "is"; tinfo b3 e3 (TPercent p) x2; word b4 e4 "of"; word b5 e5 "what"]
+    = Some (num (ops_of_what A p)) /\
+  value_of_infos bexec ny line lang
+    [tinfo b1 e1 (TMoney A c) x1; word b2 e2 "is"; tinfo b3 e3 (TPercent p) x2; word b4 e4 "of"; word b5 e5 "what"]
+    = Some (AItem (IMoney (ops_of_what A p) c)).
+Proof. intros H. by_lang H. Qed.
+
+(* 'X + p%' / 'X - p%': no rule rewrites the line; the interpreter computes the share *)
+Theorem selected_plus_minus lang (X p : float) nt (c : str) :
+  In lang (map fst (cf_rules default_config)) ->
+  value_of_infos bexec ny line lang [tinfo b1 e1 (TNumber X nt) x1; tinfo b2 e2 (TOperator OP_PLUS) x2; tinfo b3 e3 (TPercent p) x3]
+    = Some (AItem (INumber (ops_plus X p) nt)) /\
+  value_of_infos bexec ny line lang [tinfo b1 e1 (TNumber X nt) x1; tinfo b2 e2 (TOperator OP_MINUS) x2; tinfo b3 e3 (TPercent p) x3]
+    = Some (AItem (INumber (ops_minus X p) nt)) /\
+  value_of_infos bexec ny line lang [tinfo b1 e1 (TMoney X c) x1; tinfo b2 e2 (TOperator OP_PLUS) x2; tinfo b3 e3 (TPercent p) x3]
+    = Some (AItem (IMoney (ops_plus X p) c)) /\
+  value_of_infos bexec ny line lang [tinfo b1 e1 (TMoney X c) x1; tinfo b2 e2 (TOperator OP_MINUS) x2; tinfo b3 e3 (TPercent p) x3]
+    = Some (AItem (IMoney (ops_minus X p) c)).
+Proof. intros H. by_lang H. Qed.
+
+End Selected.
